@@ -255,11 +255,28 @@ def run(rep):
               "decoded byte order reaches the raw read",
               "the dtype built from BYTEORDER is reduced with `.type` (a scalar type carries no byte order) and load() reads with the "
               "native order: big-endian rasters are mis-read", line=(type_drop[0].lineno if type_drop else fs.lineno))
-    sz = [n for n in ast.walk(load) if isinstance(n, ast.If) and raises_in(n) and "len(data)" in ast.unparse(n.test).replace(" ", "")]
-    rep.check(bool(sz), "R13.d", rel, "Grid.load", "number of values read is checked against nrows*ncols", "", line=load.lineno)
-    rs = [n for n in ast.walk(load) if isinstance(n, ast.Call) and isinstance(n.func, ast.Attribute) and n.func.attr == "reshape"]
-    okrs = bool(rs) and ast.unparse(rs[0].args[0]).replace(" ", "") in ("(self.nrows,self.ncols)",)
-    rep.check(okrs, "R13.d", rel, "Grid.load", "row-major reshape to (nrows, ncols)", ast.unparse(rs[0]) if rs else "", line=load.lineno)
+    from .. import pq
+    from ..formula import show as _show
+    lpaths = pq.PEval().run(load)
+    NV = ["self.nrows*self.ncols"]
+    def size_test(p_):
+        for c, t in pq.flat_conds(p_.conds):
+            if c[0] != 'cmp' or c[1] not in ('!=', '=='):
+                continue
+            sides = [c[2], c[3]]
+            cnt = [x for x in sides if (pq.call_named(x, "shape") and pq.same(x[2][1], "0")) or pq.call_named(x, "attr:size")]
+            tot = [x for x in sides if pq.same(x, NV[0])]
+            if len(cnt) == 1 and len(tot) == 1 and pq.mentions(cnt[0], lambda e: pq.call_named(e, "fromfile")):
+                return (c[1] == '!=') == t
+        return None
+    sz = [p_ for p_ in lpaths if p_.how == "raise" and size_test(p_) is True]
+    stored = [e for p_ in lpaths if p_.how in ("end", "return") for e in p_.effects if e.kind == 'attr' and e.target == "self._data"]
+    unchecked = [p_ for p_ in lpaths if p_.how in ("end", "return") and size_test(p_) is not False]
+    rep.check(bool(sz) and bool(stored) and not unchecked, "R13.d", rel, "Grid.load", "number of values read is checked against nrows*ncols", "", line=load.lineno)
+    okrs = bool(stored) and all(pq.mentions(e.val, lambda x: pq.call_named(x, "reshape") and pq.same(x[2][1], "(self.nrows, self.ncols)") and
+                                            pq.mentions(x[2][0], lambda y: pq.call_named(y, "fromfile"))) for e in stored)
+    rs = stored
+    rep.check(okrs, "R13.d", rel, "Grid.load", "row-major reshape to (nrows, ncols)", _show(rs[0].val)[:120] if rs else "", line=load.lineno)
 
     # ---------------- R13.b dict tables -------------------------------------------------------------------------------------------
     for cls, init_name in (("Grid", "Grid.__init__"), ("Catchment", "Catchment.__init__")):
@@ -283,6 +300,16 @@ def run(rep):
             if isinstance(n, ast.For) and isinstance(n.iter, (ast.List, ast.Tuple)) and any(
                     isinstance(x, ast.Compare) and isinstance(x.ops[0], ast.In) and ast.unparse(x.comparators[0]) == "dic" for x in ast.walk(n)):
                 rkeys |= {const_value(x) for x in n.iter.elts}
+            if isinstance(n, ast.comprehension) and any(isinstance(x, ast.Compare) and isinstance(x.ops[0], ast.In) and ast.unparse(x.comparators[0]) == "dic"
+                                                        for i_ in n.ifs for x in ast.walk(i_)):
+                it = n.iter
+                if isinstance(it, ast.Name):
+                    # a named constant list defined in the function
+                    for m_ in ast.walk(fd):
+                        if isinstance(m_, ast.Assign) and isinstance(m_.targets[0], ast.Name) and m_.targets[0].id == it.id and isinstance(m_.value, (ast.List, ast.Tuple)):
+                            it = m_.value
+                if isinstance(it, (ast.List, ast.Tuple)):
+                    rkeys |= {const_value(x) for x in it.elts}
         rep.check(rkeys <= set(wkeys), "R13.b", rel, f"{cls}.from_dict", "keys read are written by to_dict",
                   f"read but not written: {sorted(rkeys - set(wkeys))}", line=fd.lineno)
         rep.check(set(wkeys) <= rkeys, "R13.b", rel, f"{cls}.to_dict", "keys written are restored by from_dict",
